@@ -232,16 +232,22 @@ func c19HeadRaceStale(storeTo int, answer string) {
 }
 
 // concurrent callers share one head request and its result
-func c19Flight(n int, answer string, prior string) {
+func c19Flight(n int, answer string, prior string) { c19FlightOn(20, n, answer, prior) }
+
+// c19FlightOn: storeTo = 0 puts the callers on the subjective (re)initialisation path
+func c19FlightOn(storeTo, n int, answer string, prior string) {
 	ctx := context.Background()
-	run := newC19(20, 2*time.Hour, 600*time.Second)
+	run := newC19(storeTo, 2*time.Hour, 600*time.Second)
 	if prior != "" {
 		// an earlier (sequential) head request with another outcome: its result must not leak into the next flight
 		run.a2 = prior
 		_, _ = run.s.Head(ctx)
 		run.g.take()
 	}
-	run.a2 = answer
+	run.a1, run.a2 = "fail", answer
+	if storeTo == 0 {
+		run.a1 = answer
+	}
 	run.g.headGate = make(chan struct{})
 	var wg sync.WaitGroup
 	results := make([]string, n)
@@ -275,7 +281,7 @@ func c19Flight(n int, answer string, prior string) {
 	if prior == "" {
 		prior = "-"
 	}
-	emit("C19 kind=flight n=%d answer=%s prior=%s => reqs=%d results=%s", n, answer, prior, nreq, strings.Join(results, ","))
+	emit("C19 kind=flight store=%d n=%d answer=%s prior=%s => reqs=%d results=%s", storeTo, n, answer, prior, nreq, strings.Join(results, ","))
 }
 
 func runC19(tier string, r *rng) {
@@ -327,6 +333,8 @@ func runC19(tier string, r *rng) {
 		c19Flight(n, "fail", "ok:30")  // a successful request earlier, then a shared failing one
 		c19Flight(n, "softbad:44", "") // the shared answer is a soft-failing forged head: nobody may adopt it
 		c19Flight(n, "softnopath:44", "")
+		c19FlightOn(0, n, "ok:59", "") // empty store: the callers meet on the initialisation request
+		c19FlightOn(0, n, "fail", "")
 		c19HeadRace(20, 2*n)
 		c19HeadRaceLag(20, n, 2, 5)
 		c19HeadRaceLag(20, 0, 3, 6)
